@@ -1,6 +1,6 @@
 (** Proofs about Cred/Sign.v.  The MAC is any function with 32-byte outputs
     ([mac_len], [mac_bytes]); nothing cryptographic is assumed except where a
-    statement names [mac_binds] or [no_forgery]. *)
+    statement names [second_preimage_free] or [no_forgery]. *)
 From Coq Require Import List NArith ZArith Bool Lia.
 From Verif Require Import Lib.Bytes Lib.Codec Cred.Sign.
 Import ListNotations.
@@ -36,6 +36,64 @@ Proof.
   intros H N E. apply N. rewrite <- E at 1. unfold upd.
   rewrite app_nth2; rewrite firstn_length; [|lia].
   replace (i - Nat.min i (length l))%nat with 0%nat by lia. reflexivity.
+Qed.
+
+Lemma upd_same {A} (d : A) l : forall i, (i < length l)%nat -> upd i (nth i l d) l = l.
+Proof.
+  unfold upd. induction l as [|x l IH]; intros i H; [cbn in H; lia|].
+  destruct i as [|i]; [reflexivity|]. cbn [length] in H.
+  cbn [nth firstn skipn app]. f_equal. apply IH. lia.
+Qed.
+
+Lemma skipn_skipn' {A} n m (l : list A) : skipn n (skipn m l) = skipn (m + n) l.
+Proof.
+  revert l. induction m as [|m IH]; intros l; [reflexivity|].
+  destruct l as [|x l]; [now rewrite !skipn_nil|]. cbn [skipn plus]. apply IH.
+Qed.
+
+Lemma firstn_upd {A} n i (x : A) l : (n <= i)%nat -> (i < length l)%nat -> firstn n (upd i x l) = firstn n l.
+Proof.
+  intros H L. unfold upd. rewrite firstn_app, firstn_firstn, firstn_length.
+  replace (Nat.min n i) with n by lia.
+  replace (n - Nat.min i (length l))%nat with 0%nat by lia.
+  cbn [firstn]. now rewrite app_nil_r.
+Qed.
+
+Lemma skipn_upd {A} n i (x : A) l : (i < n)%nat -> (i < length l)%nat -> skipn n (upd i x l) = skipn n l.
+Proof.
+  intros H L. unfold upd. rewrite skipn_app, firstn_length.
+  replace (Nat.min i (length l)) with i by lia.
+  rewrite skipn_all2 by (rewrite firstn_length; lia).
+  replace (n - i)%nat with (S (n - S i)) by lia. cbn [app].
+  rewrite skipn_cons, skipn_skipn'. f_equal. lia.
+Qed.
+
+Lemma split_at {A} j (d : A) l : (j < length l)%nat -> l = firstn j l ++ nth j l d :: skipn (S j) l.
+Proof. intros H. symmetry. apply (upd_same d l j H). Qed.
+
+(** If two hex texts differ in one character, the byte strings differ in one byte. *)
+Lemma hex_char_change_bytes a b i c :
+  is_bytes a -> is_bytes b -> (i < length (hex_encode b))%nat ->
+  hex_encode a = upd i c (hex_encode b) ->
+  (i / 2 < length b)%nat /\ a = upd (i / 2) (nth (i / 2) a 0%N) b.
+Proof.
+  intros Ha Hb Hi E. rewrite hex_encode_length in Hi.
+  assert (length a = length b) as L.
+  { apply (f_equal (@length N)) in E. rewrite upd_length in E by (rewrite hex_encode_length; lia).
+    rewrite !hex_encode_length in E. lia. }
+  set (j := (i / 2)%nat).
+  assert (2 * j <= i /\ i < 2 * j + 2)%nat as [J1 J2].
+  { unfold j. pose proof (Nat.div_mod i 2 ltac:(lia)) as D.
+    pose proof (Nat.mod_upper_bound i 2 ltac:(lia)). lia. }
+  assert (j < length b)%nat as Jb by lia.
+  split; [exact Jb|].
+  assert (firstn j a = firstn j b) as F.
+  { apply hex_encode_inj; [now apply is_bytes_firstn|now apply is_bytes_firstn|].
+    rewrite !hex_encode_firstn, E. apply firstn_upd; [lia|rewrite hex_encode_length; lia]. }
+  assert (skipn (S j) a = skipn (S j) b) as S.
+  { apply hex_encode_inj; [now apply is_bytes_skipn|now apply is_bytes_skipn|].
+    rewrite !hex_encode_skipn, E. apply skipn_upd; [lia|rewrite hex_encode_length; lia]. }
+  rewrite (split_at j 0%N a) at 1 by lia. unfold upd. now rewrite F, S.
 Qed.
 
 Section SignProofs.
@@ -85,9 +143,16 @@ Section SignProofs.
     intros N E. apply check_sound in E. split; [|exact E]. intros ->. contradiction.
   Qed.
 
-  (** ** Under the idealisation that the MAC is injective *)
+  (** ** Under a second-preimage idealisation
 
-  Definition mac_binds : Prop := forall k d k' d', mac k d = mac k' d' -> k = k' /\ d = d'.
+      [second_preimage_free k d]: no other data has the MAC that [d] has under
+      [k].  It is an idealisation of HMAC (for data longer than the MAC some
+      collision exists by counting, though none can be found), stated for the
+      one issued token a theorem is about; it is satisfiable together with
+      [mac_len] (see [Props/C16.v]), so the theorems below are not vacuous. *)
+
+  Definition second_preimage_free (k : K) (d : bytes) : Prop :=
+    forall d', d' <> d -> mac k d' <> mac k d.
 
   Lemma skipn_sign k d : skipn (length (sign k d) - mac_size) (sign k d) = mac k d.
   Proof.
@@ -97,12 +162,14 @@ Section SignProofs.
   Qed.
 
   (** A blob that still ends with the issued MAC but is not the issued blob. *)
-  Lemma kept_mac_rejected : mac_binds -> forall k d bs,
+  Lemma kept_mac_rejected k d bs :
+    second_preimage_free k d ->
     bs <> sign k d -> skipn (length bs - mac_size) bs = mac k d -> check k bs = None.
   Proof.
-    intros B k d bs N T. destruct (check k bs) as [d'|] eqn:E; [|reflexivity].
+    intros B N T. destruct (check k bs) as [d'|] eqn:E; [|reflexivity].
     apply check_sound in E. subst bs. rewrite skipn_sign in T.
-    apply B in T. destruct T as [_ ->]. contradiction.
+    destruct (list_eq_dec N.eq_dec d' d) as [->|D]; [contradiction|].
+    now apply B in D.
   Qed.
 
   (** A blob that keeps the issued data but carries another MAC. *)
@@ -113,13 +180,14 @@ Section SignProofs.
   Qed.
 
   (** Changing any one byte of an issued blob (so: flipping any bit). *)
-  Theorem byte_change_rejected : mac_binds -> forall k d i b,
+  Theorem byte_change_rejected k d i b :
+    second_preimage_free k d ->
     (i < length (sign k d))%nat -> nth i (sign k d) 0%N <> b -> check k (upd i b (sign k d)) = None.
   Proof.
-    intros B k d i b Hi Hb. unfold Sign.sign in *.
+    intros B Hi Hb. unfold Sign.sign in *.
     destruct (Nat.lt_ge_cases i (length d)) as [L|L].
     - rewrite upd_app_l by exact L.
-      apply (kept_mac_rejected B k d).
+      apply (kept_mac_rejected k d); [exact B| |].
       + unfold Sign.sign. intros E. apply app_inv_tail in E.
         rewrite app_nth1 in Hb by exact L. exact (upd_neq i b 0%N d L Hb E).
       + rewrite app_length, mac_len, upd_length by exact L.
@@ -132,11 +200,13 @@ Section SignProofs.
       + apply (upd_neq (i - length d) b 0%N (mac k d)); [rewrite mac_len; lia|exact Hb].
   Qed.
 
-  Theorem other_key_rejected : mac_binds -> forall k k' d, k' <> k -> check k' (sign k d) = None.
+  (** A token verifies under another key exactly when both keys give its data the same MAC. *)
+  Theorem other_key_iff k k' d : check k' (sign k d) = None <-> mac k' d <> mac k d.
   Proof.
-    intros B k k' d N. unfold Sign.sign. rewrite check_app by apply mac_len.
-    destruct (beq_bytes (mac k d) (mac k' d)) eqn:E; [|reflexivity].
-    apply beq_bytes_spec in E. apply B in E. destruct E as [-> _]. contradiction.
+    unfold Sign.sign. rewrite check_app by apply mac_len.
+    destruct (beq_bytes (mac k d) (mac k' d)) eqn:E.
+    - apply beq_bytes_spec in E. split; [discriminate|]. intros N. now symmetry in E.
+    - apply beq_bytes_neq in E. split; [intros _ Q; now symmetry in Q|reflexivity].
   Qed.
 
   (** ** Relative to what was issued *)
@@ -193,27 +263,25 @@ Section SignProofs.
     split; [exact I|]. now apply in_map.
   Qed.
 
-  (** Any change of one character of an issued hex token is rejected. *)
-  Theorem hex_other_text_rejected : mac_binds -> forall k d s,
-    is_bytes d -> s <> sign_hex k d ->
-    (forall bs, hex_decode s = Some bs -> length bs = length (sign k d) /\
-        (firstn (length d) bs = d \/ skipn (length d) bs = mac k d)) ->
-    check_hex k s = None.
+  (** Changing any one character of an issued hex token (so: flipping any
+      bit of its text) is rejected; this is what failed for letter case before
+      the repair. *)
+  Theorem hex_char_change_rejected k d i c :
+    second_preimage_free k d ->
+    is_bytes d -> (i < length (sign_hex k d))%nat -> nth i (sign_hex k d) 0%N <> c ->
+    check_hex k (upd i c (sign_hex k d)) = None.
   Proof.
-    intros B k d s Hd N Hshape.
-    destruct (check_hex k s) as [d'|] eqn:E; [|reflexivity]. exfalso.
-    apply check_hex_iff in E. destruct E as [Hd' ->].
-    assert (hex_decode (sign_hex k d') = Some (sign k d')) as D.
-    { apply hex_decode_encode. now apply sign_is_bytes. }
-    destruct (Hshape _ D) as [L [F|S]].
-    - unfold Sign.sign in L, F. rewrite !app_length, !mac_len in L.
-      assert (length d' = length d) as L' by lia.
-      rewrite <- L' in F. rewrite firstn_app, Nat.sub_diag, firstn_O, app_nil_r, firstn_all in F.
-      subst d'. contradiction.
-    - unfold Sign.sign in L, S. rewrite !app_length, !mac_len in L.
-      assert (length d' = length d) as L' by lia.
-      rewrite <- L' in S. rewrite skipn_app, Nat.sub_diag, skipn_all in S. cbn [skipn app] in S.
-      apply B in S. destruct S as [_ ->]. contradiction.
+    intros B Hd Hi Hc.
+    destruct (check_hex k (upd i c (sign_hex k d))) as [d'|] eqn:E; [|reflexivity]. exfalso.
+    apply check_hex_iff in E. destruct E as [Hd' E]. unfold Sign.sign_hex in *.
+    symmetry in E.
+    destruct (hex_char_change_bytes _ _ i c (sign_is_bytes k d' Hd') (sign_is_bytes k d Hd) Hi E) as [J Q].
+    set (j := (i / 2)%nat) in *. set (x := nth j (sign k d') 0%N) in *.
+    destruct (N.eq_dec (nth j (sign k d) 0%N) x) as [Same|Diff].
+    - rewrite <- Same, upd_same in Q by exact J. rewrite Q in E.
+      symmetry in E. revert E. now apply upd_neq with (d := 0%N).
+    - pose proof (byte_change_rejected k d j x B J Diff) as R.
+      rewrite <- Q, check_sign in R. discriminate.
   Qed.
 
   (** ** Sessions *)
